@@ -18,7 +18,7 @@ func (c *Ctx) isFreshRef(ref Term) bool { return c.freshRefs[ref.S] }
 func (c *Ctx) covered(fam string, ref Term, lo, hi *Term) Term {
 	alts := []Term{app(SBool, "<", c.allocEntry, ref)}
 	for _, t := range c.footprint {
-		if t.fam != fam {
+		if t.ghost != nil || t.fam != fam {
 			continue
 		}
 		same := Eq(ref, t.ref)
@@ -79,7 +79,19 @@ func (c *Ctx) checkWriteRange(st *State, prefix string, t types.Type, ref, lo, h
 
 // checkCalleeTarget: a callee's modifies target must be inside the caller's footprint.
 func (c *Ctx) checkCalleeTarget(st *State, t modTarget, pos token.Pos, callee string) {
-	if !c.frameActive() || c.isFreshRef(t.ref) {
+	if !c.frameActive() {
+		return
+	}
+	if t.ghost != nil {
+		for _, f := range c.footprint {
+			if f.ghost != nil && f.ghost.Name == t.ghost.Name {
+				return
+			}
+		}
+		c.oblige(st, "frame", "call:"+callee, pos, TFalse, "callee modifies ghost variable "+t.ghost.Name+" which is not in the modifies footprint")
+		return
+	}
+	if c.isFreshRef(t.ref) {
 		return
 	}
 	var goal Term
